@@ -161,6 +161,9 @@ def rand_z2z2_index(
     if dual is None:
         dual = rng.choice([False, True])
 
+    if isinstance(d, dict):
+        return sr.BlockIndex(chargemap=d, dual=dual)
+
     possible = [(0, 0), (0, 1), (1, 0), (1, 1)]
 
     if subsizes is None:
